@@ -1,6 +1,6 @@
 # C08: LZ10 compression emits a valid stream that expands to the input.
 from lzcommon import (LZCheckMixin, PropertyCheck, Case, Bad, compress_inputs, parse_compress_out, parse_hex, hexb,
-                      strict_parse, expand, shrink_bytes)
+                      strict_parse, expand, shrink_bytes, shrink_ptok)
 
 
 class C08(LZCheckMixin, PropertyCheck):
@@ -11,7 +11,7 @@ class C08(LZCheckMixin, PropertyCheck):
             "long runs around 4096; structured random inputs (runs, periods around the window edge, Thue-Morse, Fibonacci, incompressible, "
             "length-form boundaries, blocks repeated at distance 4093..4099, self-copying, near-periodic) <= 6 KiB against the extracted model "
             "and larger ones (quick <= 64 KiB, thorough <= 1 MiB; repeats of 65536..140000 bytes) against the oracle only; a slice of the family through "
-            "the enum CompressionFormat. Non-trivial = the emitted stream contains a "
+            "the enum CompressionFormat; the 16 MiB boundary: 2^24-1 and 2^24-2 bytes (compact P<len>:<pattern> inputs, implementation + oracle). Non-trivial = the emitted stream contains a "
             "back-reference; distinct = distinct input.")
     assumptions = ["A-std: Vec, slices and integer casts behave as documented",
                    "machine-level model (C08_compress_succeeds): out_buffer's filled prefix as a list, i32 token-byte expressions without overflow checks (values <= 0x1000)"]
@@ -50,6 +50,10 @@ class C08(LZCheckMixin, PropertyCheck):
 
     def shrink_candidates(self, case):
         parts = case.line.split(" ")
+        if parts[2][0] == "P":
+            for t in shrink_ptok(parts[2]):
+                yield Case("%s 0 %s" % (parts[0], t), case.stream)
+            return
         for d in shrink_bytes(parse_hex(parts[2])):
             yield Case("%s %s %s" % (parts[0], "1" if len(d) <= 6000 else parts[1], hexb(d)), case.stream)
 
@@ -58,7 +62,7 @@ TB = ("Trusted: Coq 8.16.1 kernel (vm_compute, no native_compute), no axioms (Pr
       "ExtrOcamlBasic extraction + hand-written OCaml driver, the Rust harness and Python generators/oracles. ")
 
 MANIFEST = dict(
-    text="Theorems (Coq 8.16, closed under the global context) about executable Gallina models of LZ10CompressionFormat::compress (get_occurrence_length, the greedy loop with window min(pos,0x1000) and look-ahead 0x12, the flag/token emission loop, header and token bytes with the shift/mask expressions of src/lz10.rs) and of the library's decoder (lz13::decompress_lz as it is after the repair of F14): for EVERY byte string shorter than 2^24 the output is accepted completely by a strict LZ10 parser written from the format description (type 0x10, 24-bit LE size = input length, flag groups of eight tokens MSB first, references of length 3-18 and displacement 1-4096 reaching only into produced data, exact size, no byte left over) and its tokens expand to the input; the library's decompressor returns the input in the checked and the wrapping profile, also through the enum CompressionFormat; the greedy token sequence expands to the input for every input (overlapping copies included). 'Compression succeeds' is a theorem too: a machine-level model of get_occurrence_length and of the loop of lz10.rs (checked slice indexing, usize arithmetic in a profile, the 17-byte out_buffer array) returns Ok of exactly the list model's output for every input shorter than 2^63 bytes in either profile. The models are tied to /repo on every run: extracted model vs real library byte-for-byte on bounded-exhaustive small alphabets, every run/period length 0..300 (thorough 700), structured inputs <= 6 KiB, both build profiles; larger inputs (quick 64 KiB + repeats up to 140000 bytes, thorough 1 MiB) implementation + oracle only; an independent Python strict parser/expander judges every implementation output.",
+    text="Theorems (Coq 8.16, closed under the global context) about executable Gallina models of LZ10CompressionFormat::compress (get_occurrence_length, the greedy loop with window min(pos,0x1000) and look-ahead 0x12, the flag/token emission loop, header and token bytes with the shift/mask expressions of src/lz10.rs) and of the library's decoder (lz13::decompress_lz as it is after the repair of F14): for EVERY byte string shorter than 2^24 the output is accepted completely by a strict LZ10 parser written from the format description (type 0x10, 24-bit LE size = input length, flag groups of eight tokens MSB first, references of length 3-18 and displacement 1-4096 reaching only into produced data, exact size, no byte left over) and its tokens expand to the input; the library's decompressor returns the input in the checked and the wrapping profile, also through the enum CompressionFormat; the greedy token sequence expands to the input for every input (overlapping copies included). 'Compression succeeds' is a theorem too: a machine-level model of get_occurrence_length and of the loop of lz10.rs (checked slice indexing, usize arithmetic in a profile, the 17-byte out_buffer array) returns Ok of exactly the list model's output for every input shorter than 2^63 bytes in either profile. The models are tied to /repo on every run: extracted model vs real library byte-for-byte on bounded-exhaustive small alphabets, every run/period length 0..300 (thorough 700), structured inputs <= 6 KiB, both build profiles; larger inputs (quick 64 KiB + repeats up to 140000 bytes, thorough 1 MiB) and the 16 MiB boundary (2^24-1, 2^24-2 bytes) implementation + oracle only; an independent Python strict parser/expander judges every implementation output.",
     note=TB + 'Modelled, not verified (A-std): Vec, slices, integer casts, 64-bit usize. In the machine-level model the filled prefix of out_buffer is a list and the i32 token-byte expressions are evaluated without overflow checks (values <= 0x1000). Nothing is claimed for inputs of 16 MiB and more (the 24-bit size is truncated there). notes/lz.md lists 7 mutations of /repo, all reported by the quick check.',
     technique='Coq proof (induction on the greedy loop, parser/encoder inversion, decoder simulation) + extracted-model differential check + independent Python stream parser as oracle',
     ref='DESIGN.md section 4 (C08); notes/lz.md')
